@@ -19,7 +19,14 @@ pub fn ready<T>(t: T) -> (r: FutReady<T>) ensures r.val == Some(t) { FutReady { 
 pub struct MaxConn { }
 pub const MAX_CONN: MaxConn = MaxConn { };
 pub enum Ordering { Relaxed, SeqCst }
-impl MaxConn { #[verifier::external_body] pub fn load(&self, o: Ordering) -> (r: usize) { unimplemented!() } }
+/// the value of `MAX_CONN` at the time of the (one) load made during the verified call; PROPHECY name `stored_in_call`:
+/// the value the (one) store made during the verified call writes
+pub uninterp spec fn max_conn_configured() -> usize;
+impl MaxConn {
+    pub uninterp spec fn stored_in_call(&self) -> Option<usize>;
+    #[verifier::external_body] pub fn load(&self, o: Ordering) -> (r: usize) ensures r == max_conn_configured() { unimplemented!() }
+    #[verifier::external_body] pub fn store(&self, v: usize, o: Ordering) ensures self.stored_in_call() == Some(v) { unimplemented!() }
+}
 pub uninterp spec fn fresh_counter_id(n: usize) -> int;
 #[verifier::external_body]
 pub proof fn axiom_fresh_counter(n: usize) ensures fresh_counter_id(n) != thread_counter_id() { }
